@@ -42,8 +42,8 @@ Entries == {lo, <<DOT>> \o lo, co \o <<DOT>> \o lo, <<DOT>> \o co \o <<DOT>> \o 
             L1, B1, lo \o P80, L1 \o P80, lo \o <<DOT, DOT>> \o co, <<DOT>> \o L1}
 Lists == UNION {SeqsLen(Entries, k) : k \in 1..MaxList}
 
-VARIABLES host, list
-vars == <<host, list>>
+VARIABLES host, list, phase
+vars == <<host, list, phase>>
 
 (* ---- host_is_trusted as written ---------------------------------------------------------- *)
 PartitionColon(s) == LET p == FindFrom(s, <<COLON>>, 1) IN IF p = 0 THEN s ELSE Take(s, p - 1)
@@ -83,11 +83,11 @@ Impl(h, l) ==
 NoTab == <<>>
 
 (* ---- invariants ---------------------------------------------------------------------------- *)
-ImplMeetsContract == LET r == Impl(host, list) IN r \in {"T", "F"} /\ (r = "T") \in Verdicts(NoTab, host, list)
+ImplMeetsContract == phase = 1 => LET r == Impl(host, list) IN r \in {"T", "F"} /\ (r = "T") \in Verdicts(NoTab, host, list)
 
 \* "port aside"
 PortAside == LET p == Parse(host) IN
-             (HostOK(NoTab, host) /\ ~p.hasport) => Verdicts(NoTab, host, list) = Verdicts(NoTab, host \o P80, list)
+             (phase = 1 /\ HostOK(NoTab, host) /\ ~p.hasport) => Verdicts(NoTab, host, list) = Verdicts(NoTab, host \o P80, list)
 
 \* independent, string-level reading of "never a look-alike suffix / another literal":
 \* whenever TRUE is admitted some entry is, after case folding and port/trailing-dot removal,
@@ -95,23 +95,24 @@ PortAside == LET p == Parse(host) IN
 NoDot(s) == IF s # <<>> /\ s[Len(s)] = DOT THEN Take(s, Len(s) - 1) ELSE s
 NameOf(s) == LET p == Parse(s) IN IF p.ok THEN LowerS(NoDot(p.name)) ELSE LowerS(s)
 NoLookAlike ==
-  TRUE \in Verdicts(NoTab, host, list) =>
+  (phase = 1 /\ TRUE \in Verdicts(NoTab, host, list)) =>
     \E i \in 1..Len(list) :
       LET e == list[i] en == NameOf(EntryBody(e)) hn == NameOf(host) IN
       hn = en \/ (EntrySub(e) /\ EndsWith(hn, <<DOT>> \o en))
 
 \* a longer list never withdraws trust that is required, a host outside every entry stays out
-Monotone == Len(list) = 2 =>
+Monotone == (phase = 1 /\ Len(list) = 2) =>
   /\ (Verdicts(NoTab, host, <<list[1]>>) = {FALSE} /\ Verdicts(NoTab, host, <<list[2]>>) = {FALSE})
        => Verdicts(NoTab, host, list) = {FALSE}
   /\ TRUE \in Verdicts(NoTab, host, <<list[1]>>) => TRUE \in Verdicts(NoTab, host, list)
 
-MalformedOut == Malformed(NoTab, host) /\ (\A i \in 1..Len(list) : host # list[i] /\ host # EntryBody(list[i]))
+MalformedOut == (phase = 1 /\ Malformed(NoTab, host) /\ (\A i \in 1..Len(list) : host # list[i] /\ host # EntryBody(list[i])))
                   => Verdicts(NoTab, host, list) = {FALSE}
 
-Init == host \in Hosts /\ list \in Lists
-NoNext == FALSE /\ UNCHANGED vars
+\* two levels so that TLC's workers share the enumeration: initial states = the lists
+Init == phase = 0 /\ host = <<>> /\ list \in Lists
+Next == phase = 0 /\ phase' = 1 /\ host' \in Hosts /\ UNCHANGED list
 
-Export == PrintT(ToJson([host |-> host, list |-> list,
+Export == phase = 1 => PrintT(ToJson([host |-> host, list |-> list,
                          v |-> [t |-> TRUE \in Verdicts(NoTab, host, list), f |-> FALSE \in Verdicts(NoTab, host, list)]]))
 =============================================================================
